@@ -48,6 +48,11 @@ func (l *lexer) load(input io.Reader) error {
 
 	// discard byte order mark, if present
 	firstCh, _, err := l.reader.ReadRune()
+	if err == io.EOF {
+		// an empty input has no tokens; that is not an error
+		// (an empty file among imported ones failed the whole parse)
+		return nil
+	}
 	if err != nil {
 		return err
 	}
